@@ -276,51 +276,35 @@ Section Sorting.
   Qed.
 End Sorting.
 
-(* the Go loop is the reference merge with the two sequences exchanged: it is still an ordered
-   permutation, but ties come out with the elements of the SECOND sequence first *)
+(* the Go loop is the reference merge: an element of the second sequence goes first only when it is
+   strictly before the head of the first *)
 Lemma m_merge_cons : forall t k x a y b,
   m_merge_lists t k (x :: a) (y :: b) =
-  if lt_of t (key_app k x) (key_app k y) then x :: m_merge_lists t k a (y :: b) else y :: m_merge_lists t k (x :: a) b.
+  if lt_of t (key_app k y) (key_app k x) then y :: m_merge_lists t k (x :: a) b else x :: m_merge_lists t k a (y :: b).
 Proof. reflexivity. Qed.
 
-Lemma m_merge_is_swapped : forall t k l1 l2,
-  m_merge_lists t k l1 l2 = s_merge (s_test2 t) (key_app k) l2 l1.
+Lemma m_merge_is_reference : forall t k l1 l2,
+  m_merge_lists t k l1 l2 = s_merge (s_test2 t) (key_app k) l1 l2.
 Proof.
   intros t k. induction l1 as [|x a IH1]; [intros; destruct l2; reflexivity|].
   induction l2 as [|y b IH2]; [reflexivity|].
   rewrite m_merge_cons, merge_cons. unfold lt_of. replace (test2 t) with (s_test2 t) by (destruct t; reflexivity).
-  destruct (s_test2 t (key_app k x) (key_app k y)).
-  - f_equal. apply IH1.
+  destruct (s_test2 t (key_app k y) (key_app k x)).
   - f_equal. exact IH2.
+  - f_equal. apply IH1.
+Qed.
+
+(* the Go merge of two ordered sequences: ordered, a permutation of both together, and stable with the
+   elements of the first sequence first *)
+Theorem m_merge_stable : forall t k l1 l2, test_strict t = true ->
+  ordered (s_test2 t) (key_app k) l1 -> ordered (s_test2 t) (key_app k) l2 ->
+  stable_spec (s_test2 t) (key_app k) (l1 ++ l2) (m_merge_lists t k l1 l2).
+Proof.
+  intros t k l1 l2 Ht H1 H2. rewrite m_merge_is_reference.
+  exact (merge_spec _ _ (swo_of_strict_test t Ht) l1 l2 H1 H2).
 Qed.
 
 Theorem m_merge_sorted_perm : forall t k l1 l2, test_strict t = true ->
   ordered (s_test2 t) (key_app k) l1 -> ordered (s_test2 t) (key_app k) l2 ->
   sort_spec (s_test2 t) (key_app k) (l1 ++ l2) (m_merge_lists t k l1 l2).
-Proof.
-  intros t k l1 l2 Ht H1 H2. rewrite m_merge_is_swapped.
-  pose proof (swo_of_strict_test t Ht) as W.
-  destruct (merge_spec _ _ W l2 l1 H2 H1) as [[HP Ho] _]. split; [|exact Ho].
-  etransitivity; [apply Permutation_app_comm|exact HP].
-Qed.
-
-(* no key of one sequence equals a key of the other: both merges agree *)
-Lemma merge_no_ties : forall t k l1 l2, test_strict t = true ->
-  forallb (fun x => forallb (fun y => negb (key_app k x =? key_app k y)) l2) l1 = true ->
-  m_merge_lists t k l1 l2 = s_merge (s_test2 t) (key_app k) l1 l2.
-Proof.
-  intros t k l1 l2 Ht. revert l2. induction l1 as [|x a IH1]; [intros; destruct l2; reflexivity|].
-  induction l2 as [|y b IH2]; intros Hn; [reflexivity|].
-  rewrite m_merge_cons, merge_cons. unfold lt_of. replace (test2 t) with (s_test2 t) by (destruct t; reflexivity).
-  assert (Hn' := Hn). cbn [forallb] in Hn'. apply andb_true_iff in Hn' as [Hx Ha].
-  apply andb_true_iff in Hx as [Hxy Hxb]. apply negb_true_iff, Z.eqb_neq in Hxy.
-  assert (s_test2 t (key_app k y) (key_app k x) = negb (s_test2 t (key_app k x) (key_app k y))) as ->.
-  { destruct t as [|[]|[]]; try discriminate; cbn;
-      destruct (Z.ltb_spec (key_app k x) (key_app k y)), (Z.ltb_spec (key_app k y) (key_app k x)); cbn; try reflexivity; lia. }
-  destruct (s_test2 t (key_app k x) (key_app k y)); cbn [negb].
-  - f_equal. apply IH1.
-    apply forallb_forall. intros z Hz. rewrite forallb_forall in Ha. exact (Ha z Hz).
-  - f_equal. apply IH2.
-    apply forallb_forall. intros z Hz. rewrite forallb_forall in Hn. specialize (Hn z Hz).
-    cbn [forallb] in Hn. now apply andb_true_iff in Hn as [_ Hn].
-Qed.
+Proof. intros t k l1 l2 Ht H1 H2. exact (proj1 (m_merge_stable t k l1 l2 Ht H1 H2)). Qed.
